@@ -111,6 +111,32 @@ def write_replay(prop, r, oid, line, desc, oname, builders):
     return path, reproduced
 
 
+def native_search(prop, unit, reasons):
+    """Bounded stand-in when the proof of a unit is undecided: run the unit's REPLAY_SEARCH driver (it checks the unit's
+    contract on the real code over a finite, stated input set).  Returns (replay path, text) when the real code fails."""
+    src = driver_source(prop, unit)
+    if not src or 'REPLAY_SEARCH' not in open(src).read():
+        return None, ''
+    exe, why = build_driver(prop, unit)
+    if not exe:
+        return None, why
+    try:
+        p = subprocess.run([exe, '/dev/null', 'bounded_native_search', unit], stdout=subprocess.PIPE, stderr=subprocess.STDOUT, timeout=300)
+    except subprocess.TimeoutExpired:
+        return None, 'native search timed out'
+    if p.returncode != 1:
+        return None, ''
+    os.makedirs(OUT, exist_ok=True)
+    path = os.path.join(OUT, '%s-%s_bounded_native_search.json' % (prop, unit))
+    out = p.stdout.decode(errors='replace')[-3000:]
+    rec = {'property': prop, 'obligation': '%s/bounded_native_search' % unit, 'unit': unit, 'description': 'bounded_native_search',
+           'level': 'bounded (native search of the real code; the deductive proof of this unit was undecided)',
+           'verifier_output': reasons, 'inputs': [], 'input_values': {}, 'native': out, 'reproduced_on_real_code': True}
+    with open(path, 'w') as f:
+        json.dump(rec, f, indent=1)
+    return path, out.strip().split('\n')[-1]
+
+
 def write_kv(path, rec):
     kv = path[:-5] + '.kv'
     with open(kv, 'w') as f:
